@@ -3331,7 +3331,7 @@ impl Block {
             // validate double-spend inputs
             if tx.transaction_type != TransactionType::Fee {
                 for input in tx.from.iter() {
-                    if input.amount == 0 || input.slip_type == SlipType::Bound {
+                    if input.amount == 0 {
                         continue;
                     }
                     let utxo_key = input.get_utxoset_key();
